@@ -597,7 +597,32 @@ class Interp:
         raise Unsupported("int op %s" % type(op).__name__)
 
     def disjoint_or(self, x, y):
-        """x | y == x + y when (proved under the path condition) x is a multiple of 2^k and 0 <= y < 2^k."""
+        """x | y == x + y when (proved under the path condition) x is a multiple of 2^k and 0 <= y < 2^k.
+        The answer depends only on (x, y, path condition); paths are re-executed from the start with deterministic
+        fresh names, so it is memoised per (terms, decision prefix) on the explorer (pure speed-up)."""
+        memo = self.ctx.ex.__dict__.setdefault("_disjoint_or_memo", {})
+        key = (x.get_id(), y.get_id(), tuple(self.ctx.decisions))
+        hit = memo.get(key)
+        if hit is not None and hit[0].eq(x) and hit[1].eq(y):
+            return hit[2]
+        r = self._disjoint_or(x, y)
+        memo[key] = (x, y, r)
+        return r
+
+    def _disjoint_or(self, x, y):
+        xs, ys = z3.simplify(x), z3.simplify(y)
+        # one operand is a literal c: the only useful splits are k = (number of trailing zero bits of c) [other operand
+        # in [0, 2^k)] and k = bit length of c [other operand a multiple of 2^k]
+        for c_t, o in ((xs, y), (ys, x)):
+            if z3.is_int_value(c_t) and c_t.as_long() > 0:
+                c = c_t.as_long()
+                tz = (c & -c).bit_length() - 1
+                if tz > 0 and self.ctx.prove_quick(z3.And(0 <= o, o < I(2 ** tz)), qf_first_only=True):
+                    return x + y
+                bl = c.bit_length()
+                if self.ctx.prove_quick(z3.And(o % I(2 ** bl) == 0, o >= 0), qf_first_only=True):
+                    return x + y
+                return None
         ks = set()
 
         def scan(t, depth=0):
@@ -613,12 +638,12 @@ class Interp:
             for ch in t.children():
                 scan(ch, depth + 1)
 
-        scan(z3.simplify(x))
-        scan(z3.simplify(y))
+        scan(xs)
+        scan(ys)
         for k in sorted(ks):
             m = I(2 ** k)
             for a, b in ((x, y), (y, x)):
-                if self.ctx.prove_quick(z3.And(a % m == 0, 0 <= b, b < m)):
+                if self.ctx.prove_quick(z3.And(a % m == 0, 0 <= b, b < m), qf_first_only=True):
                     return a + b
         return None
 
